@@ -508,3 +508,418 @@ def coq_model(mt):
     rng = lambda l: "[" + "; ".join("(%s, %s)" % (qstr(a), qstr(b)) for a, b in l) + "]"
     return ("{| m_fr := %s; m_tr := %s; m_rows := [%s]; m_extra := [%s]; m_frng := %s; m_trng := %s |}"
             % (qlist(mt["fr"]), qlist(mt["tr"]), rows, extra, rng(mt["frng"]), rng(mt["trng"])))
+
+
+# ----------------------------------------------------------------------------- reporting consistency (text <-> internals)
+from decimal import Decimal
+
+
+def dec_fr(txt):
+    return Fr(Decimal(txt))
+
+
+def half_ulp(txt):
+    """half a unit in the last printed place of a %e-formatted number"""
+    m = re.match(r"^[+-]?(\d)\.(\d+)e([+-]\d+)$", txt.strip())
+    if not m:
+        return None
+    nd = len(m.group(2))
+    ex = int(m.group(3))
+    return Fr(1, 2) * Fr(10) ** (ex - nd)
+
+
+def zeroed(v):
+    return Fr(0) if abs(v) <= Fr(MIN_TOTAL_INVERSE) else v
+
+
+def near(txt, v, slack=Fr(0)):
+    """printed text txt is the %e rendering of exact value v (after the engine's zeroing of |v|<=1e-14)"""
+    hu = half_ulp(txt)
+    if hu is None:
+        return False
+    v = zeroed(v)
+    # one part in 1e12 for the binary->decimal conversion of snprintf itself and for d1+d2 rounding
+    return abs(dec_fr(txt) - v) <= hu * (1 + Fr(1, 10**6)) + slack + abs(v) * Fr(1, 10**12)
+
+
+NUM = r"[+-]?\d\.\d+e[+-]\d+"
+
+
+def split_models_text(out):
+    """the printed text of every reported model, in order"""
+    i = out.find("Beginning of inverse modeling")
+    if i < 0:
+        return []
+    body = out[i:]
+    parts = []
+    pos = 0
+    for m in re.finditer(r"Maximum fractional error in element concentration:\s*(%s)" % NUM, body):
+        parts.append(body[pos:m.end()])
+        pos = m.end()
+    return parts
+
+
+def check_printed(pb, m, mt, text):
+    """-> list of mismatch descriptions between the printed model and the engine's vectors"""
+    bad = []
+    p = pb["p"]
+    ns, nph = pb["ns"], pb["nph"]
+    toler = pb["toler"]
+    # solution fractions
+    seg = text[text.find("Solution fractions:"):]
+    rows = re.findall(r"^\s*Solution\s+(\d+)\s+(%s)\s+(%s)\s+(%s)\s*$" % (NUM, NUM, NUM), seg, flags=re.M)
+    if len(rows) != ns:
+        bad.append("fraction rows %d != %d" % (len(rows), ns))
+    for s, row in enumerate(rows[:ns]):
+        if int(row[0]) != p["solns"][s]["n_user"]:
+            bad.append("fraction row %d is for solution %s" % (s, row[0]))
+        for txt, v, what in zip(row[1:], (mt["fr"][s], mt["frng"][s][0], mt["frng"][s][1]), ("value", "min", "max")):
+            if not near(txt, v):
+                bad.append("fraction %s of solution %d printed %s, engine %.17g" % (what, s, txt, float(v)))
+    # phase transfers: a row is printed unless value, min and max are all within toler of zero
+    seg2 = seg[seg.find("Phase mole transfers:"):seg.find("Redox mole transfers:")]
+    prow = {}
+    for line in seg2.split("\n")[1:]:
+        mm = re.match(r"^\s*(\S.{0,14}?)\s+(%s)\s+(%s)\s+(%s)\s+\S" % (NUM, NUM, NUM), line)
+        if mm:
+            prow[mm.group(1).strip()] = mm.groups()[1:]
+    for i, ph in enumerate(p["phases"]):
+        v, lo, hi = mt["tr"][i], mt["trng"][i][0], mt["trng"][i][1]
+        expected = not (abs(v) <= toler and abs(lo) <= toler and abs(hi) <= toler)
+        key = ph["name"][:15].strip()
+        if expected != (key in prow):
+            bad.append("phase %s %s in the printed table (value %.3g)" % (ph["name"], "missing" if expected else "unexpected", float(v)))
+        elif expected:
+            for txt, val, what in zip(prow[key], (v, lo, hi), ("value", "min", "max")):
+                if not near(txt, val):
+                    bad.append("transfer %s of %s printed %s, engine %.17g" % (what, ph["name"], txt, float(val)))
+    # Input / Delta / Input+Delta tables of the solutions that take part
+    for s in range(ns):
+        if abs(mt["fr"][s]) <= toler:
+            continue
+        mm = re.search(r"^Solution %d: [^\n]*\n\n\s+Input\s+Delta\s+Input\+Delta\n((?:.*\n)*?)\n" % p["solns"][s]["n_user"], text, flags=re.M)
+        if not mm:
+            bad.append("no Input/Delta table for solution %d" % s)
+            continue
+        tab = {}
+        for line in mm.group(1).split("\n"):
+            m2 = re.match(r"^\s*(\S+)\s+(%s)\s+\+\s*(%s)\s+=\s*(%s)\s*$" % (NUM, NUM, NUM), line)
+            if m2:
+                tab[m2.group(1)] = m2.groups()[1:]
+        for r_ in mt["rows"]:
+            for st in r_["states"]:
+                nm = st["name"][:15]
+                if nm not in tab:
+                    bad.append("no Delta row for %s in solution %d" % (nm, s))
+                    continue
+                d1 = st["T"][s]
+                d2 = st["e"][s] / mt["fr"][s]
+                a, b, c = tab[nm]
+                if not near(a, d1):
+                    bad.append("Input of %s/%d printed %s, solution total %.17g" % (nm, s, a, float(d1)))
+                if not near(b, d2, slack=abs(d2) * Fr(1, 10**12)):
+                    bad.append("Delta of %s/%d printed %s, engine eps/f %.17g" % (nm, s, b, float(d2)))
+                if not near(c, d1 + d2, slack=(abs(d1) + abs(d2)) * Fr(1, 10**12)):
+                    bad.append("Input+Delta of %s/%d printed %s, expected %.17g" % (nm, s, c, float(d1 + d2)))
+    return bad
+
+
+def parse_selstr(s):
+    lines = [l for l in s.split("\n") if l.strip()]
+    if not lines:
+        return [], []
+    heads = [h.strip() for h in lines[0].split("\t") if h.strip()]
+    rows = [[c.strip() for c in l.split("\t") if c.strip()] for l in lines[1:]]
+    return heads, rows
+
+
+def check_punched(pb, m, mt, heads, row):
+    bad = []
+    p = pb["p"]
+    ns, nph = pb["ns"], pb["nph"]
+    exp_heads = ["Sum_resid", "Sum_Delta/U", "MaxFracErr"]
+    vals = [H(m["error"]) / Fr(0.0009765625), H(m["scaled_error"]), H(m["max_pct"])]
+    for s in range(ns):
+        n = p["solns"][s]["n_user"]
+        exp_heads += ["Soln_%d" % n, "Soln_%d_min" % n, "Soln_%d_max" % n]
+        vals += [mt["fr"][s], mt["frng"][s][0], mt["frng"][s][1]]
+    for i, ph in enumerate(p["phases"]):
+        exp_heads += [ph["name"], ph["name"] + "_min", ph["name"] + "_max"]
+        vals += [mt["tr"][i], mt["trng"][i][0], mt["trng"][i][1]]
+    if heads != exp_heads:
+        bad.append("selected-output headings %r, expected %r" % (heads[:8], exp_heads[:8]))
+        return bad
+    if len(row) != len(vals):
+        bad.append("selected-output row has %d cells, expected %d" % (len(row), len(vals)))
+        return bad
+    for k, (txt, v) in enumerate(zip(row, vals)):
+        if k < 3:
+            # Sum_resid is not zeroed below 1e-14
+            hu = half_ulp(txt)
+            if hu is None or abs(dec_fr(txt) - v) > hu * (1 + Fr(1, 10**6)) + abs(v) * Fr(1, 10**12):
+                bad.append("column %s punched %s, engine %.17g" % (exp_heads[k], txt, float(v)))
+        elif not near(txt, v):
+            bad.append("column %s punched %s, engine %.17g" % (exp_heads[k], txt, float(v)))
+    return bad
+
+
+# ----------------------------------------------------------------------------- strata for known numerical weaknesses
+def degenerate(phases):
+    seen = set()
+    for ph in phases:
+        f = parse_formula(ph["formula"])
+        key = tuple(sorted((e, v) for e, v in f.items() if e not in SKIP_ELEMS))
+        if key in seen:
+            return True
+        seen.add(key)
+    return False
+
+
+def stratum(pb):
+    p = pb["p"]
+    clean = (pb["ns"] == 2 and not degenerate(p["phases"]) and not any(ph["force"] for ph in p["phases"])
+             and not any(s["force"] for s in p["solns"]))
+    return "clean" if clean else "degenerate-forced-or-mixing"
+
+
+# ----------------------------------------------------------------------------- Coq evaluation of the cases
+COQ_HEAD = """From Coq Require Import QArith Qabs List Bool ZArith.
+From IPV Require Import C18.Check.
+Import ListNotations.
+Open Scope Q_scope.
+"""
+
+
+def coq_cases(items):
+    """items: [(tag, pb, tol, [(mi, mt, goodmask)], final_good_masks or None)] -> .v text"""
+    L = [COQ_HEAD]
+    for tag, pb, tol, models, masks in items:
+        L.append("Definition pb_%s : problem := %s." % (tag, coq_problem(pb, tol)))
+        for mi, mt, g in models:
+            L.append("Definition md_%s_%d : model := %s." % (tag, mi, coq_model(mt)))
+            L.append("Eval vm_compute in (77%%Z, %s%%Z, %d%%Z, check_verdict pb_%s md_%s_%d, Z.eqb (model_support %s md_%s_%d) %d)."
+                     % (tag, mi, tag, tag, mi, qstr(TOL_BITS), tag, mi, g))
+        if masks is not None:
+            L.append("Eval vm_compute in (65%%Z, %s%%Z, antichain_b [%s])." % (tag, "; ".join("%d%%Z" % x for x in masks)))
+    return "\n".join(L) + "\n"
+
+
+def parse_coq_out(out):
+    res = {"M": {}, "A": {}}
+    flat = re.sub(r"\s+", " ", out)
+    for m in re.finditer(r'= \(77%Z, (\d+)%Z, (\d+)%Z, \[([^\]]*)\], (true|false)\)', flat):
+        res["M"][(int(m.group(1)), int(m.group(2)))] = ([b.strip() == "true" for b in m.group(3).split(";")], m.group(4) == "true")
+    for m in re.finditer(r'= \(65%Z, (\d+)%Z, (true|false)\)', flat):
+        res["A"][int(m.group(1))] = m.group(2) == "true"
+    return res
+
+
+def eval_shards(items, nshards=5, timeout=600):
+    """split the items over several coqc processes"""
+    shards = [items[i::nshards] for i in range(nshards)]
+    shards = [s for s in shards if s]
+    out = {"M": {}, "A": {}}
+    fails = []
+    with cf.ThreadPoolExecutor(max_workers=nshards) as ex:
+        futs = [ex.submit(vlib.coq_eval, coq_cases(s), timeout) for s in shards]
+        for f, s in zip(futs, shards):
+            rc, txt = f.result()
+            if rc != 0:
+                fails.append(txt[-1500:])
+            r = parse_coq_out(txt)
+            out["M"].update(r["M"])
+            out["A"].update(r["A"])
+    return out, fails
+
+
+VERDICT_NAMES = ["shape", "balance", "adjustment", "fraction-sign", "phase-sign", "range"]
+
+
+def gen():
+    import c18_bits
+    c18_bits.generate()
+
+
+_seen_keys = set()
+
+
+def report(ctx, key, what, obj):
+    """one replay per key (the first case that shows it); later ones are only counted"""
+    if key in _seen_keys:
+        return
+    _seen_keys.add(key)
+    ctx.violation(key, what, obj)
+
+
+def analyse(ctx, cases, res, stats):
+    """python-side reporting checks + preparation of the Coq items.  cases: {id: case}, res: {id: result}"""
+    items = []
+    info = {}
+    for cid in sorted(cases):
+        c = cases[cid]
+        r = res.get(cid)
+        if r is None or r.get("timeout") or r.get("crash"):
+            stats["timeout" if r and r.get("timeout") else "crash"] += 1
+            if r and r.get("crash"):
+                report(ctx, "C18:crash", "the library crashed on an inverse-modelling input",
+                              {"kind": "input", "input_text": c["text"], "database": "phreeqc.dat", "observed": r.get("stderr", ""), "expected": "a run that returns"})
+            continue
+        if r.get("rc", 1) != 0 or "dberr" in r:
+            stats["run ended with ERROR (outside premises)"] += 1
+            continue
+        nm = len(r["models"])
+        # F7: the selected-output string carries one row per model, the table must too
+        heads, srows = parse_selstr(r["selstr"].get("1", ""))
+        trows = r["table_rows"].get("1", 0) - 1
+        if r["problem"] is not None and len(srows) != max(trows, 0):
+            stats["F7 observed"] += 1
+            report(ctx, "F7:punch_model-no-end-row",
+                          "punch_model never calls fpunchf_end_row: the selected-output string has one row per inverse model, the selected-output table has none",
+                          {"kind": "input", "input_text": c["text"], "database": "phreeqc.dat",
+                           "observed": {"string_rows": len(srows), "table_rows": trows}, "expected": "equal numbers of rows"})
+        if nm == 0:
+            stats["no model reported"] += 1
+            ctx.case(("nomodel", cid), nontrivial=False)
+            continue
+        try:
+            pb = build_problem(r, c.get("meta"))
+        except Skip as ex:
+            stats["skipped: " + str(ex)[:60]] += 1
+            continue
+        # declared uncertainties as read by the engine vs. the input text
+        me = c.get("meta")
+        if me:
+            for r_ in pb["rows"]:
+                for st in r_["states"]:
+                    for s in range(pb["ns"]):
+                        want = Fr(float(expected_unc(me, st["name"], s, pb["ns"])))
+                        if st["unc"][s] != want:
+                            report(ctx, "C18:uncertainty-misread", "uncertainty of %s in solution %d read as %g, input says %g" % (st["name"], s, float(st["unc"][s]), float(want)),
+                                          {"kind": "input", "input_text": c["text"], "database": "phreeqc.dat", "observed": float(st["unc"][s]), "expected": float(want)})
+            if [ph["name"] for ph in pb["p"]["phases"]] != me["cand"]:
+                report(ctx, "C18:phases-misread", "phase list differs from the input", {"kind": "input", "input_text": c["text"], "database": "phreeqc.dat"})
+            for ph in pb["p"]["phases"]:
+                want = {"": 0, "dis": 1, "pre": -1}[me["cons"][ph["name"]]]
+                if ph["constraint"] != want or bool(ph["force"]) != (ph["name"] in me["force"]):
+                    report(ctx, "C18:constraint-misread", "constraint/force of %s read as %d/%d" % (ph["name"], ph["constraint"], ph["force"]),
+                                  {"kind": "input", "input_text": c["text"], "database": "phreeqc.dat"})
+        tol = tolerances(pb)
+        texts = split_models_text(r["out"])
+        if len(texts) != nm or len(srows) != nm:
+            report(ctx, "C18:model-count-mismatch", "printed %d models, punched %d rows, %d model snapshots" % (len(texts), len(srows), nm),
+                          {"kind": "input", "input_text": c["text"], "database": "phreeqc.dat"})
+        mm = re.search(r"Number of models found: (\d+)", r["out"])
+        if mm and int(mm.group(1)) != nm:
+            report(ctx, "C18:model-count-mismatch", "summary says %s models, %d were reported" % (mm.group(1), nm),
+                          {"kind": "input", "input_text": c["text"], "database": "phreeqc.dat"})
+        models = []
+        for mi, m in enumerate(r["models"]):
+            mt = model_terms(pb, m)
+            g = m["good"][-1] if m["good"] else 0
+            models.append((mi, mt, g))
+            bad = []
+            if mi < len(texts):
+                bad += check_printed(pb, m, mt, texts[mi])
+            if mi < len(srows):
+                bad += check_punched(pb, m, mt, heads, srows[mi])
+            if bad:
+                stats["report mismatch"] += 1
+                report(ctx, "C18:report-mismatch", "printed / punched model differs from the solver's vector: " + "; ".join(bad[:4]),
+                              {"kind": "input", "input_text": c["text"], "database": "phreeqc.dat", "model_index": mi, "observed": bad[:20],
+                               "expected": "every printed number is the %e rendering of the engine value"})
+            stats["models"] += 1
+        masks = list(r["models"][-1]["good"]) if pb["minimal"] else None
+        items.append((str(cid), pb, tol, models, masks))
+        info[cid] = {"pb": pb, "r": r, "c": c, "models": models}
+    return items, info
+
+
+def judge(ctx, items, info, coq, stats):
+    for tag, pb, tol, models, masks in items:
+        cid = int(tag)
+        c = info[cid]["c"]
+        r = info[cid]["r"]
+        warn = r.get("warn", "")
+        out = r.get("out", "")
+        for mi, mt, g in models:
+            v = coq["M"].get((cid, mi))
+            if v is None:
+                ctx.obligation("coq-evaluation-of-case", False, "no verdict for case %s model %d" % (tag, mi))
+                continue
+            verdict, supp_ok = v
+            failed = [n for n, ok in zip(VERDICT_NAMES, verdict) if not ok]
+            rs = py_residuals(pb, mt)
+            sample = {"phases": [ph["name"] for ph in pb["p"]["phases"]], "nsol": pb["ns"], "fractions": [float(x) for x in mt["fr"]],
+                      "transfers": [float(x) for x in mt["tr"]], "max_balance_residual": max([abs(float(x)) for x in rs.values()] or [0]),
+                      "verdict": dict(zip(VERDICT_NAMES, verdict))}
+            ctx.case(("model", c["text"], mi), sample=sample)
+            if not supp_ok:
+                stats["mask/support mismatch"] += 1
+                report(ctx, "C18:mask-support-mismatch", "bit mask %s saved for a reported model is not the set of its non-zero fractions/transfers" % bin(g),
+                              {"kind": "input", "input_text": c["text"], "database": "phreeqc.dat", "model_index": mi,
+                               "observed": {"mask": g, "fractions": [float(x) for x in mt["fr"]], "transfers": [float(x) for x in mt["tr"]]}})
+            if not failed:
+                continue
+            obs = {"failed_checks": failed, "balance_residuals": {k: float(x) for k, x in rs.items()},
+                   "fractions": [float(x) for x in mt["fr"]], "transfers": [float(x) for x in mt["tr"]],
+                   "ranges": [[float(a), float(b)] for a, b in mt["frng"] + mt["trng"]], "tolerance": float(pb["toler"])}
+            nonrange = [f for f in failed if f != "range"]
+            if nonrange:
+                if "Roundoff errors in minimal calculation" in warn:
+                    key = "C18:model-from-failed-solve"
+                    what = ("minimal_solve ignores the failure of its last solve_with_mask (warning 'Roundoff errors in minimal calculation'); "
+                            "the failed solver vector is reported as a model and violates: " + ", ".join(nonrange))
+                else:
+                    key = "C18:inadmissible-model:" + "+".join(nonrange)
+                    what = "reported inverse model is not an admissible mole-balance model; failed: " + ", ".join(nonrange)
+                stats["inadmissible: " + key] += 1
+                report(ctx, key, what, {"kind": "input", "input_text": c["text"], "database": "phreeqc.dat", "model_index": mi,
+                                          "observed": obs, "expected": "check_inverse_model = true (Coq, exact arithmetic)"})
+            if "range" in failed:
+                if "Error in subroutine range" in out:
+                    key = "C18:range-cl1-error"
+                    what = "range() prints 'Error in subroutine range' (cl1 failed) but still reports the min/max; a value lies outside its reported range"
+                else:
+                    key = "C18:range-outside:" + stratum(pb)
+                    what = "a value of a reported model lies outside its reported [min,max] range (no solver error reported)"
+                stats["range: " + key] += 1
+                report(ctx, key, what, {"kind": "input", "input_text": c["text"], "database": "phreeqc.dat", "model_index": mi,
+                                          "observed": obs, "expected": "min <= value <= max for every fraction and transfer"})
+        if masks is not None:
+            a = coq["A"].get(cid)
+            if a is None:
+                ctx.obligation("coq-evaluation-of-case", False, "no antichain verdict for case %s" % tag)
+            elif not a:
+                stats["antichain violated"] += 1
+                report(ctx, "C18:minimal-not-antichain", "with -minimal a reported model's set of phases and solutions strictly contains that of another reported model",
+                              {"kind": "input", "input_text": c["text"], "database": "phreeqc.dat", "observed": {"masks": [bin(x) for x in masks]},
+                               "expected": "no reported mask strictly contains another"})
+
+
+def run(ctx):
+    import collections
+    stats = collections.Counter()
+    ok = vlib.coq_stage(ctx, "Props/Properties_C18.vo", gen=gen)
+    ctx.trusted += ["harness/c18_inv.cpp (reads the solver vectors through '#define private public', no change to /repo)",
+                    "props/c18.py: formula parser (specification stoichiometry), generator, text parsers",
+                    "cl1 (simplex) is an oracle: Section variable `solve` in C18/Search.v with hypotheses H_sub H_mono H_supp H_top for the antichain theorem"]
+    if ctx.replay:
+        rp = json.load(open(ctx.replay))
+        cases = {0: {"text": rp["input_text"], "meta": None}}
+    else:
+        n = ctx.n(150, 1200)
+        cases = {k: gen_case(ctx.rng, k) for k in range(n)}
+    jobs = [{"id": k, "text": c["text"], "oracle": True} for k, c in cases.items()]
+    res = run_jobs(jobs, timeout_each=30)
+    items, info = analyse(ctx, cases, res, stats)
+    coq, fails = eval_shards(items)
+    if fails:
+        ctx.obligation("coq-evaluation-of-cases", False, fails[0])
+    judge(ctx, items, info, coq, stats)
+    ctx.rule = ("forward-simulated evolutions (1..3 initial waters mixed, stoichiometric REACTION with 1..5 phases, optional unmodelled salt as "
+                "perturbation inside/outside the uncertainty) followed by INVERSE_MODELING with 2..9 candidate phases, constraints, force, "
+                "-range, -minimal, -tolerance, -mineral_water, -multiple_precision, per-element/absolute uncertainties; a case is non-trivial "
+                "when at least one model is reported; each reported model is one evaluation of the Coq checker")
+    ctx.extra["statistics"] = dict(stats)
+    ctx.notes += ["mole-balance residuals are evaluated exactly (Q) on the solver's own vector (hex doubles); tolerance = the run's -tolerance (toler)",
+                  "range membership uses relative slack 1e-6*(1+|v|); support threshold = TOL (1e-9) as in solve_inverse"]
